@@ -15,6 +15,11 @@ open Mdsort.Proofs.Own
 theorem inFlightH_snoc (tr : Trace) (e : Call × Res) : inFlightH (tr ++ [e]) = inFlightUpd (inFlightH tr) e := by
   simp [inFlightH, List.foldl_append]
 
+theorem inFlightUpd_unlinkat (acc : List (Handle × Bytes)) (d : Handle) (n : Bytes) (r : Res) :
+    inFlightUpd acc (.unlinkat d n, r) =
+      if acc.contains (d, n) then acc.filter (· != (d, n)) else if isOk r then [] else acc := by
+  cases r <;> rfl
+
 /-- Results a mover can see: a `renameat` succeeds or fails, and never with `EXDEV` (one device). -/
 def MoverR (c : Call) (r : Res) : Prop :=
   ∀ d1 n1 d2 n2, c = .renameat d1 n1 d2 n2 → (∃ v, r = .ok v) ∨ (∃ e, r = .err e ∧ e ≠ "EXDEV")
